@@ -103,8 +103,59 @@ def no_memo(chk, repo):
             "layout") if bad else f"{n} methods")
 
 
+def every_write_stored(chk, repo):
+    """R29.7: an assignment to a device variable is a store: every way
+    through DeviceVar.__set__ / ArrayGlobalVarDesc.__set__ that ends
+    normally passes the store (the buffer slice, super().__set__, the
+    instance dictionary of a group-less device).  A path that returns
+    without it - "the value is in the map already" - leaves what the other
+    process wrote in the meantime in place."""
+    chk.doc("R29.7", "every assignment to a device variable is stored")
+    n = 0
+    for q in ("ebpfcat.ebpfcat.DeviceVar",
+              "ebpfcat.arraymap.ArrayGlobalVarDesc"):
+        ci = repo.cls(q)
+        f = ci.methods.get("__set__")
+        if f is None:
+            continue
+        n += 1
+        chk.analysed(q + ".__set__")
+        cfg = CFG(f)
+
+        def stores(nd):
+            e = nd.stmt if nd.kind == "stmt" else nd.expr
+            if e is None:
+                return False
+            if isinstance(e, ast.Assign) and any(isinstance(
+                    t, ast.Subscript) for t in e.targets):
+                return True
+            for c in ast.walk(e):
+                if isinstance(c, ast.Call) and isinstance(
+                        c.func, ast.Attribute) and c.func.attr in (
+                            "__set__", "pack_into", "update_elem",
+                            "__setitem__"):
+                    return True
+            return False
+        ok = cfg.must_pass(cfg.entry, stores, targets=[cfg.exit])
+        wit = None if ok else cfg.witness_path(cfg.entry, stores,
+                                               targets=[cfg.exit])
+        last = None
+        for nd in (wit or []):
+            if getattr(nd, "stmt", None) is not None:
+                last = nd.stmt
+        chk.ob("R29.7", q + ".__set__", "every normal way out has stored "
+               "the value", ok, last or f,
+               (f"a path ends at `{unparse(last)[:50] if last else '?'}` "
+                f"without a store: the assignment is dropped and the other "
+                f"process keeps what it read or wrote before") if not ok
+               else "buffer slice / super().__set__ / instance dictionary "
+               "on every path")
+    chk.floor("R29.7", "__set__ implementations", n, 2)
+
+
 def run(chk, repo):
     no_memo(chk, repo)
+    every_write_stored(chk, repo)
     chk.doc("R29.5", "the process group runs the cycle of SyncGroup on the "
                      "shared array itself")
     override_rule(chk, repo, "R29.5", "ebpfcat.ebpfcat.SyncGroup",
